@@ -374,6 +374,41 @@ theorem not_mem_escSet (e off t : UInt8) (qs : List UInt8) (hq : qs.contains t =
 
 end QmiModel.Interbus
 
+/-! ## Interbus: the device's one-pass un-escaping (specification) -/
+
+namespace QmiModel.Interbus
+
+/-- the un-escaping procedure of the NKT manual, as a device does it: one pass, an escape byte means
+"the next byte minus the offset"; a dangling escape byte is an error -/
+def specUnescape (e off : UInt8) : Bytes → Option Bytes
+  | [] => some []
+  | [x] => if x = e then none else some [x]
+  | x :: y :: rest =>
+    if x = e then (specUnescape e off rest).map ((y - off) :: ·) else (specUnescape e off (y :: rest)).map (x :: ·)
+
+theorem specUnescape_cons_ne (e off x : UInt8) (t : Bytes) (h : x ≠ e) :
+    specUnescape e off (x :: t) = (specUnescape e off t).map (x :: ·) := by
+  cases t with
+  | nil => simp [specUnescape, h]
+  | cons y rest => simp [specUnescape, h]
+
+theorem specUnescape_escSet (e off : UInt8) (qs : List UInt8) (he : qs.contains e = true) (bs : Bytes) :
+    specUnescape e off (escSet e off qs bs) = some bs := by
+  induction bs with
+  | nil => rfl
+  | cons b bs ih =>
+    rw [escSet_cons]
+    by_cases hb : qs.contains b = true
+    · rw [if_pos hb]
+      simp [specUnescape, ih]
+    · rw [if_neg hb]
+      have hbe : b ≠ e := by intro h; subst h; exact hb he
+      simp only [List.cons_append, List.nil_append]
+      rw [specUnescape_cons_ne _ _ _ _ hbe, ih]
+      rfl
+
+end QmiModel.Interbus
+
 /-! ## APT cells -/
 
 namespace QmiModel.Apt
